@@ -62,6 +62,9 @@ def setup():
     except OSError:
         pass
     builtins.input = _no_input
+    import warnings
+
+    warnings.simplefilter("ignore")
     sys.setrecursionlimit(3000)
     import vyxal  # noqa
     import vyxal.transpile
